@@ -229,6 +229,10 @@ SYMS = ['AUTH', 'AUTH_ANON', 'AUTH_ANON_resp', 'AUTH_ANON_badhex', 'AUTH_EXT', '
         'DATA_wrong_prefix', 'DATA_badhex', 'BEGIN', 'CANCEL', 'ERROR', 'NEGOTIATE_UNIX_FD', 'junk', 'empty']
 
 
+SERVER_WORDS = {'cli_OK': b'OK 0123456789abcdef0123456789abcdef', 'cli_REJECTED': b'REJECTED ANONYMOUS',
+                'cli_AGREE': b'AGREE_UNIX_FD', 'cli_OK_bare': b'OK'}
+
+
 def concretise(name, ctx_state, env):
     """(line bytes, symbol-info) for a symbol given what the server said last."""
     hx = binascii.hexlify
@@ -286,6 +290,9 @@ def concretise(name, ctx_state, env):
         return b'NEGOTIATE_UNIX_FD', {'cmd': 'NEGOTIATE_UNIX_FD'}
     if name == 'junk':
         return b'FROBNICATE now', {'cmd': 'OTHER'}
+    if name in SERVER_WORDS:
+        # command words only a SERVER sends, said by the client: unknown commands like any other
+        return SERVER_WORDS[name], {'cmd': 'OTHER'}
     if name == 'empty':
         return b'', {'cmd': 'OTHER'}
     raise ValueError(name)
@@ -663,6 +670,13 @@ def run(ctx):
                 'distinct_nontrivial = distinct sequences that reached a non-initial model state' % (L, len(SYMS)))
     rng = ctx.rng
     with authenv.AuthEnv() as env:
+        if si == 0:
+            for ln in (1, 2, 3):
+                for seq in itertools.product(SYMS + list(SERVER_WORDS), repeat=ln):
+                    if not any(x in SERVER_WORDS for x in seq) or (ln == 3 and seq[1] not in SERVER_WORDS):
+                        continue
+                    run_sequence(ctx, env, seq, {'kind': 'seq', 'symbols': list(seq)})
+                    ctx.count('server_word_sequences')
         ctx.budget(50 if quick else 520)
         n = 0
         for ln in range(1, L + 1):
